@@ -500,39 +500,17 @@ class InvGen:
                     lhs_real = lsum(terms_real)
                     sum_ax = ' + '.join('%s * %s' % (a, x) for a, x in terms_x)
                     name = 'm%d_inv_%s_%d%d' % (n, side, c, r)
-                    allparams = '%s, d: real, %s' % (mparams, qparams)
-                    allargs = '%s, d, %s' % (margs, ', '.join(q for q, _ in qdefs) if kind == 'div' else 'inv')
-                    # pass B: (I2) the Laplace identity of this entry, with the concrete polynomials; (I1) is generic (p_inv_id_*)
+                    # pass B: the Laplace identity of this entry with the concrete polynomials
                     laplace = '(%s) - %s * (%s) == 0real' % (sum_ax, t, self.det_flat)
                     pb = 'pub proof fn p_%s(%s)\n    ensures %s,\n{\n    assert(%s) by(nonlinear_arith);\n}\n' % (name, mparams, laplace, laplace)
                     self.texts.append(pb)
-                    if kind == 'div':
-                        cert = ' + '.join('%s * (d * %s - %s)' % (a, qname[u], x) for (a, x), u in zip(terms_x, used))
-                        gen_args = ', '.join([a for a, _ in terms_x] + [x for _, x in terms_x] + [qname[u] for u in used] + ['d', self.det_flat, t])
-                    else:
-                        cert = '(%s) * (d * inv - 1real)' % sum_ax
-                        gen_args = ', '.join([a for a, _ in terms_x] + [x for _, x in terms_x] + ['inv', 'd', self.det_flat, t])
-                    ident = 'd * (%s - %s) == %s + ((%s) - %s * (%s)) + %s * ((%s) - d)' % (
-                        lhs_q, t, cert, sum_ax, t, self.det_flat, t, self.det_flat)
-                    gen_name = 'p_inv_id_%s_%s_%d' % (kind, side, n)
                     self.generic.add((kind, side, n))
-                    # pass A: linear combination + two tiny nonlinear facts
-                    pa = 'pub proof fn %s(%s)\n    requires d != 0real, d == %s, %s,\n    ensures %s == %s,\n{\n    poly::p_%s(%s);\n    poly::%s(%s);\n    assert(%s);\n' % (
-                        name, allparams, self.det_flat, ', '.join(qreq), lhs_q, t, name, margs, gen_name, gen_args, ident)
+                    # the generic pass-A entry lemma is instantiated with this entry's coefficients, numerators and quotients
                     if kind == 'div':
-                        for (a, x), u in zip(terms_x, used):
-                            pa += '    assert(%s * (d * %s - %s) == 0real) by(nonlinear_arith) requires d * %s == %s;\n' % (a, qname[u], x, qname[u], x)
+                        gargs = [a for a, _ in terms_x] + [x for _, x in terms_x] + ['(%s / d)' % x for _, x in terms_x] + ['d', self.det_flat, t]
                     else:
-                        pa += '    assert((%s) * (d * inv - 1real) == 0real) by(nonlinear_arith) requires d * inv == 1real;\n' % sum_ax
-                    pa += '    assert(%s * ((%s) - d) == 0real) by(nonlinear_arith) requires d == %s;\n' % (t, self.det_flat, self.det_flat)
-                    pa += '    assert(d * (%s - %s) == 0real);\n' % (lhs_q, t)
-                    pa += '    assert(%s == %s) by(nonlinear_arith) requires d * (%s - %s) == 0real, d != 0real;\n}\n' % (lhs_q, t, lhs_q, t)
-                    self.lemmas.append(pa)
-                    if kind == 'div':
-                        qargs = ', '.join('(%s / d)' % x for _, x in qdefs)
-                    else:
-                        qargs = '(1real / d)'
-                    inner_calls.append('    %s(%s, d, %s);\n' % (name, margs, qargs))
+                        gargs = [a for a, _ in terms_x] + [x for _, x in terms_x] + ['(1real / d)', 'd', self.det_flat, t]
+                    inner_calls.append('    poly::p_%s(%s);\n    inv_entry_%s_%s_%d(%s);\n' % (name, margs, kind, side, n, ', '.join(gargs)))
                     ens.append('%s == %s' % (lhs_real, t))
         outer = 'pub proof fn m%d_inverse(%s, d: real)\n    requires d != 0real, d == %s,\n    ensures %s,\n{\n' % (
             n, mparams, self.det_flat, ',\n        '.join(ens))
@@ -568,6 +546,41 @@ def generic_inv_identity(kind, side, n):
         kind, side, n, ', '.join(p + ': real' for p in params), ident, ident)
 
 
+def generic_inv_entry(kind, side, n):
+    """pass-A lemma, generic in coefficients a_k, numerators x_k, quotients (q_k or inv), d, D, t:
+    from d != 0, d == D, d*q_k == x_k (or d*inv == 1) and sum a_k x_k == t*D conclude the entry equals t"""
+    a = ['a%d' % k for k in range(n)]
+    x = ['x%d' % k for k in range(n)]
+    q = ['q%d' % k for k in range(n)]
+    if kind == 'div':
+        params = a + x + q + ['d', 'D', 't']
+        terms = ['(%s * %s)' % ((a[k], q[k]) if side == 'MN' else (q[k], a[k])) for k in range(n)]
+        rel = ['d * %s == %s' % (q[k], x[k]) for k in range(n)]
+        cert = ' + '.join('%s * (d * %s - %s)' % (a[k], q[k], x[k]) for k in range(n))
+    else:
+        params = a + x + ['inv', 'd', 'D', 't']
+        terms = ['(%s * (%s * inv))' % (a[k], x[k]) if side == 'MN' else '((%s * inv) * %s)' % (x[k], a[k]) for k in range(n)]
+        rel = ['d * inv == 1real']
+        cert = '(%s) * (d * inv - 1real)' % ' + '.join('%s * %s' % (a[k], x[k]) for k in range(n))
+    lhs = terms[0]
+    for tt in terms[1:]:
+        lhs = '(%s + %s)' % (lhs, tt)
+    sum_ax = ' + '.join('%s * %s' % (a[k], x[k]) for k in range(n))
+    ident = 'd * (%s - t) == %s + ((%s) - t * (D)) + t * ((D) - d)' % (lhs, cert, sum_ax)
+    out = 'pub proof fn inv_entry_%s_%s_%d(%s)\n    requires d != 0real, d == D, %s, (%s) - t * (D) == 0real,\n    ensures %s == t,\n{\n' % (
+        kind, side, n, ', '.join(p + ': real' for p in params), ', '.join(rel), sum_ax, lhs)
+    out += '    poly::p_inv_id_%s_%s_%d(%s);\n' % (kind, side, n, ', '.join(params))
+    if kind == 'div':
+        for k in range(n):
+            out += '    assert(%s * (d * %s - %s) == 0real) by(nonlinear_arith) requires d * %s == %s;\n' % (a[k], q[k], x[k], q[k], x[k])
+    else:
+        out += '    assert((%s) * (d * inv - 1real) == 0real) by(nonlinear_arith) requires d * inv == 1real;\n' % sum_ax
+    out += '    assert(t * ((D) - d) == 0real) by(nonlinear_arith) requires d == D;\n'
+    out += '    assert(d * (%s - t) == 0real);\n' % lhs
+    out += '    assert(%s == t) by(nonlinear_arith) requires d * (%s - t) == 0real, d != 0real;\n}\n' % (lhs, lhs)
+    return out
+
+
 def build_c02(lib, F):
     F['m4_det_sub123'] = lib.fn('m4_det_sub123', [M[4]], V[4], argnames=['m'])(det_sub123)
 
@@ -598,6 +611,7 @@ def c02_hints(F):
         hints[('inv', n)] = g.generate()
         polys += g.texts
         polys += [generic_inv_identity(*k) for k in sorted(g.generic)]
+        lemmas += [generic_inv_entry(*k) for k in sorted(g.generic)]
         lemmas += g.lemmas
     return hints, polys, lemmas
 
